@@ -434,39 +434,43 @@ theorem filterMap_id_map_some (xs : List Nat) : (xs.map some).filterMap id = xs 
   | nil => rfl
   | cons x xs ih => simp [ih]
 
-theorem content_of_inv {T : List Tx} {fs : FS} {m : Mem} {cs : List CTx} {c : Nat} (h : InvOpen T fs m cs c) :
-    Spec.Content.same (content m fs.pv) (Spec.run T) := by
-  rw [spec_run_eq, h.pv]
-  refine ⟨h.mexts, ?_, ?_⟩
+/-- what a handle shows on any page-file image whose segments / tree / runs make up `T` -/
+theorem content_of_store {T : List Tx} {m : Mem} {cs : List CTx} {p : PImg} (hst : StoreOK T cs p)
+    (mexts : m.exts = allNodes T) (mruns : m.runs = logRuns (scan cs).ckpt cs)
+    (msegs : m.segs = (scan cs).segs.map (fun k => (k, segEdges p k))) (mroot : m.proot = (scan cs).proot)
+    (mptop : m.ptop = (scan cs).ptop) :
+    Spec.Content.same (content m p) (Spec.run T) := by
+  rw [spec_run_eq]
+  refine ⟨mexts, ?_, ?_⟩
   · intro e
-    have : m.segs.flatMap (·.2) = (scan cs).segs.flatMap (segEdges fs.pd) := by
-      rw [h.msegs, List.flatMap_map]
-    simp only [content, this, h.mruns]
-    exact h.store.edges e
+    have : m.segs.flatMap (·.2) = (scan cs).segs.flatMap (segEdges p) := by
+      rw [msegs, List.flatMap_map]
+    simp only [content, this, mruns]
+    exact hst.edges e
   · intro q
-    obtain ⟨cov, hc1, hc2, hc3⟩ := h.store.props
+    obtain ⟨cov, hc1, hc2, hc3⟩ := hst.props
     by_cases hr : (scan cs).proot = 0
-    · simp only [content, h.mroot, hr, if_true, List.append_nil, h.mruns]
+    · simp only [content, mroot, hr, if_true, List.append_nil, mruns]
       constructor
-      · exact h.store.runProps q
+      · exact hst.runProps q
       · intro hq
         rcases hc1 q hq with h' | h'
         · exact h'
         · rw [hc2 hr] at h'; simp at h'
     · obtain ⟨tr, hf, hto⟩ := hc3 hr
       obtain ⟨xs, pid, hl, hsrt, hall, hcov⟩ := hto.shape
-      have hfind : fs.pd.trees.find? (fun t => t.key == (scan cs).proot) = some tr := hf
+      have hfind : p.trees.find? (fun t => t.key == (scan cs).proot) = some tr := hf
       have hent : treeEntries tr = xs := by simp [treeEntries, hl, filterMap_id_map_some]
-      have hhas : ∀ q, treeHas fs.pd (scan cs).proot false q = (decide (q ∈ xs) && tr.blobs.contains q) := by
+      have hhas : ∀ q, treeHas p (scan cs).proot false q = (decide (q ∈ xs) && tr.blobs.contains q) := by
         intro q
         simp only [treeHas, hfind, Bool.false_eq_true, if_false, hl]
         congr 1
         rw [Bool.eq_iff_iff, leafFind_single xs hsrt pid q]
         simp
-      simp only [content, h.mroot, hr, if_false, h.mptop, h.store.ptop, hfind, hent, h.mruns, List.mem_append, List.mem_filter, hhas]
+      simp only [content, mroot, hr, if_false, mptop, hst.ptop, hfind, hent, mruns, List.mem_append, List.mem_filter, hhas]
       constructor
       · rintro (h' | ⟨h1, _⟩)
-        · exact h.store.runProps q h'
+        · exact hst.runProps q h'
         · exact hall q h1
       · intro hq
         rcases hc1 q hq with h' | h'
@@ -474,6 +478,11 @@ theorem content_of_inv {T : List Tx} {fs : FS} {m : Mem} {cs : List CTx} {c : Na
         · right
           obtain ⟨h1, h2⟩ := hcov q h'
           exact ⟨h1, by simp [h1, h2]⟩
+
+theorem content_of_inv {T : List Tx} {fs : FS} {m : Mem} {cs : List CTx} {c : Nat} (h : InvOpen T fs m cs c) :
+    Spec.Content.same (content m fs.pv) (Spec.run T) := by
+  rw [h.pv]
+  exact content_of_store h.store h.mexts h.mruns h.msegs h.mroot h.mptop
 
 /-- **C01 + C02 over all histories of this shape**: whatever the incarnations did and wherever
     they died, the next open succeeds and shows the content of an admissible transaction list:
